@@ -29,6 +29,9 @@ from typing import Any
 _real_io_open = io.open
 _real_builtins_open = builtins.open
 _REAL: dict[str, Any] = {}
+for _n in ("pwrite", "writev", "statvfs"):
+    if hasattr(os, _n):
+        _REAL[_n] = getattr(os, _n)
 for _n in ("fsync", "fdatasync", "fchmod", "chown", "lchown", "fchown", "sendfile", "copy_file_range", "posix_fallocate", "ftruncate", "mkfifo", "removedirs", "makedirs"):
     if hasattr(os, _n):
         _REAL[_n] = getattr(os, _n)
@@ -203,8 +206,19 @@ class Interposer:
             real = _REAL[real_name]
 
             def f(*a: Any, **kw: Any) -> Any:
-                if not ip.active or kw.get("dir_fd") is not None or kw.get("src_dir_fd") is not None:
+                if not ip.active:
                     return real(*a, **kw)
+                if kw.get("dir_fd") is not None or kw.get("src_dir_fd") is not None or kw.get("dst_dir_fd") is not None:
+                    # dir_fd-relative call (shutil.rmtree, TemporaryDirectory clean-up ...): the path
+                    # cannot be placed, but it is an operation of the simulated process all the same
+                    o = ip.begin(opname, ["<dir_fd>/" + str(x) for x in a[:npaths]])
+                    try:
+                        r = real(*a, **kw)
+                    except OSError as e:
+                        o.outcome = _errno.errorcode.get(e.errno or 0, "OSError")
+                        raise
+                    ip.end(o)
+                    return r
                 ps = [ip.norm(x) for x in a[:npaths]]
                 if all(p is None for p in ps):
                     return real(*a, **kw)
@@ -272,10 +286,25 @@ class Interposer:
 
             return f
 
-        for nm in ("sendfile", "copy_file_range"):
+        for nm in ("sendfile", "copy_file_range", "pwrite", "writev"):
             if nm in _REAL:
                 setattr(os, nm, data_mover(nm))
                 ip._fd_patched.append(nm)
+        # free-space probes are environment input: some workloads see an almost full disk
+        if self.knobs.get("low_disk"):
+            import collections
+            import shutil as _sh
+
+            self._disk_saved = (_sh.disk_usage, os.statvfs)
+            du = collections.namedtuple("usage", "total used free")
+            _sh.disk_usage = lambda path: du(10**9, 10**9 - 512, 512)  # type: ignore[assignment]
+            real_statvfs = os.statvfs
+
+            def statvfs(path: Any) -> Any:
+                r = real_statvfs(path)
+                return os.statvfs_result((r.f_bsize, r.f_frsize, r.f_blocks, 1, 1, r.f_files, r.f_ffree, r.f_favail, r.f_flag, r.f_namemax))
+
+            os.statvfs = statvfs  # type: ignore[assignment]
 
         def scandir(path: Any = ".") -> Any:
             p = ip.norm(path) if ip.active else None
@@ -412,6 +441,10 @@ class Interposer:
         builtins.open = _real_builtins_open  # type: ignore[assignment]
         for nm, fn in getattr(self, "_id_saved", {}).items():
             setattr(os, nm, fn)
+        if getattr(self, "_disk_saved", None):
+            import shutil as _sh
+
+            _sh.disk_usage, os.statvfs = self._disk_saved  # type: ignore[assignment]
         for nm in getattr(self, "_fd_patched", []) + ["chown", "lchown"]:
             if nm in _REAL:
                 setattr(os, nm, _REAL[nm])
@@ -994,6 +1027,12 @@ def build_tree(root: str, spec: dict[str, Any]) -> None:
     for rel, ent in spec.items():
         if "hl" in ent:  # hard link to another file of the spec
             _REAL["link"](os.path.join(root, ent["hl"]), os.path.join(root, rel))
+    for rel, ent in spec.items():
+        if ent.get("mtime") is not None:  # an old / future modification time
+            try:
+                _REAL["utime"](os.path.join(root, rel), (float(ent["mtime"]), float(ent["mtime"])), follow_symlinks=False)
+            except OSError:
+                pass
     for rel, ent in spec.items():
         if ent.get("own") is not None:  # foreign owner (the harness runs as root)
             try:
